@@ -60,6 +60,18 @@ if ok and not no_suite:
     meta["steps"]["suite_patched"] = {"summary": summary, "failed_first_pass": failed, "wall_s": round(time.time() - t0)}
     real = []
     flaky = []
+    # tests the pinned baseline itself lists as flaky (not in its stable_pass set) never count
+    try:
+        base = json.load(open("/root/.vp/BASELINE.json"))
+        base_flaky = set()
+        for t in base.get("flaky", []) + base.get("dropped_after_offline", []):
+            mod, rest = t.split("::", 1)
+            parts = mod.split(".")
+            base_flaky.add("/".join(parts[:-1]) + ".py::" + parts[-1] + "::" + rest)
+    except Exception:
+        base_flaky = set()
+    meta["steps"]["suite_patched"]["baseline_flaky_ignored"] = [t for t in failed if t in base_flaky]
+    failed = [t for t in failed if t not in base_flaky]
     for t in failed:
         f2, s2 = pytest(f"'{t}' --hypothesis-profile=ci", n=0)
         if not f2:
